@@ -58,7 +58,10 @@ def run(ck):
     ck.require_fact("V2.none-needs-no-vary", fl, ret_of("VARY_NONE"), has_vary, False, "return VARY_NONE", why="(a Vary response would be served as if it did not vary)")
     ck.require_passed("V2.other-records-mark", fl, ret_of("VARY_OTHER"), "request-marked", "return VARY_OTHER", why="(the variant re-lookup would use the base key again)")
     for s in ss:  # provenance of the compared mark
-        atom = [fl.trees[f[1]] for f in s.facts if f[0] == "A" and f[2] is False and same(fl.trees[f[1]])][0]
+        atoms = [fl.trees[f[1]] for f in s.facts if f[0] == "A" and f[2] is False and same(fl.trees[f[1]])]
+        if not atoms:
+            continue   # already reported by V2.match-needs-equal-mark
+        atom = atoms[0]
         obj = E.strip(E.strip(atom).get("o"))
         arg = E.strip(atom)["a"][0]
         defs = []
